@@ -155,7 +155,7 @@ def py_failed(ln, a, G, free, e):
             f.add("DimsEffect")
     elif not free and kn(ln["dims"]) != kn(e["dims"]):
         f.add("DimsEffect")
-    if isux and (not a["al"] or (op in X.SELECT_OPS and ln["src"] != ln["sel"])):
+    if isux and (not a["al"] or (op in X.SELECT_OPS and len(ln["src"]) == len(ln["sel"]) and ln["src"] != ln["sel"])):
         f.add("DataFollowsGrid")
     if op in X.COPY_OPS and not (a["grid"] in ln["g"]["eq"] and not ln["g"]["share"] and not ln["g"]["mem"] and not ln["g"]["leak"]):
         f.add("DeepCopyIndependent")
@@ -270,7 +270,7 @@ class Runner:
                     continue
                 # continue below the failure from the state the specification expects, if it can be had
                 nx = None
-                struct_ok = ln["out"] == "value" and not (failed & {"IsUx", "SameGrid", "DimsEffect", "GridDimsConsistent", "GridDimsNumeric", "Name", "DataFollowsGrid"})
+                struct_ok = ln["out"] == "value" and not (failed & {"IsUx", "SameGrid", "DimsEffect", "GridDimsConsistent", "GridDimsNumeric", "Name", "DataFollowsGrid", "ValuesAsXarray"})
                 if struct_ok:
                     nx, nxp = r, (rp if rp is not None else X.to_plain(r))
                 elif op not in X.OWN_OPS and op not in X.FREE_OPS and op not in X.COPY_OPS and rp is not None and e["grid"] <= len(reg.grids):
